@@ -73,3 +73,17 @@ package directive
 //@   property C09
 //@   modifies nothing
 //@   ensures[C09,@same-occurrence] result == (d.keywordCoords.file == d2.keywordCoords.file && d.keywordCoords.begin == d2.keywordCoords.begin)
+
+// Does a line of a Description text start a directive? (C01: no slice of the line exceeds what the line holds; the meaning
+// is checked by the bounded line-start check under C13/C08/C09/C12.) The directive table has 31 entries, set once at package load.
+//@ globalinv len(ss) == 31 && 0 <= ss.off
+//@ extern strconv.Atoi(s)
+//@   attr pure deterministic nopanic
+//@   ensures imp(result1 == nil, len(s) >= 1)
+//@ func IsHTTPResponseCode(s)
+//@   property C01
+//@   modifies nothing
+//@ func IsStartWithDirective(b)
+//@   property C01
+//@   requires 0 <= b.data.off
+//@   modifies nothing
